@@ -143,9 +143,30 @@ def set_cmid(mod, name, v):
     mm.slope = list(Slope)[(v >> 32) % len(Slope)]
 
 
+def pick_index(v, values, zero=0):
+    """Element index biased to the boundaries of the list and of its non-default run
+    (first, last, last non-default element, the one after it), uniform otherwise."""
+    n = len(values)
+    m = v & 7
+    w = v >> 3
+    if m == 0:
+        return 0
+    if m == 1:
+        return n - 1
+    if m in (2, 3):
+        last = -1
+        for j in range(n - 1, -1, -1):
+            if values[j] != zero:
+                last = j
+                break
+        if last >= 0:
+            return last if m == 2 else min(n - 1, last + 1)
+    return w % n
+
+
 def _arr_slot(label, values, lo, hi, conv=None):
     def setter(v):
-        i = v % len(values)
+        i = pick_index(v, values)
         x = pick_int(v >> 10, lo, hi)
         values[i] = conv(x) if conv else x
 
@@ -304,7 +325,8 @@ def sampler_slots(mod, session):
 
     def set_note_sample(v):
         keys = list(mod.note_samples.keys())
-        mod.note_samples[keys[v % len(keys)]] = pick_int(v >> 8, 0, 127)
+        vals = [mod.note_samples[k] for k in keys]
+        mod.note_samples[keys[pick_index(v, vals)]] = pick_int(v >> 8, 0, 127)
 
     def set_ins(v):
         kind = v % 9
